@@ -7,6 +7,8 @@ pub mod c06;
 pub mod c07;
 pub mod c08;
 pub mod c09;
+pub mod c10;
+pub mod c11;
 
 use crate::pool::Merged;
 use crate::shard::Shard;
@@ -40,7 +42,7 @@ impl Prop {
 }
 
 pub fn registry() -> Vec<Prop> {
-    vec![c01::prop(), c02::prop(), c03::prop(), c04::prop(), c05::prop(), c06::prop(), c07::prop(), c08::prop(), c09::prop()]
+    vec![c01::prop(), c02::prop(), c03::prop(), c04::prop(), c05::prop(), c06::prop(), c07::prop(), c08::prop(), c09::prop(), c10::prop(), c11::prop()]
 }
 
 pub fn find(id: &str) -> Option<Prop> {
